@@ -25,13 +25,13 @@ FMT_RULE = ("cases are generated from one splitmix64 state (VERIF_SEED, op, inde
 HOOK_COMMITS = ["94169f7", "6cd8fd8", "2937117"]
 
 ENGINES = [
-    {"name": "extractor", "path": "extract/", "serves_properties": ["C02", "C03", "C04", "C05", "C06", "C08", "C09", "C10", "C11", "C12", "C13", "C14", "C15", "C17"],
+    {"name": "extractor", "path": "extract/", "serves_properties": ["C02", "C03", "C04", "C05", "C06", "C08", "C09", "C10", "C11", "C12", "C13", "C14", "C15", "C17", "C19"],
      "kind_free_text": "Go (go/ast): regenerates lean/Carapace/Gen (replacer tables, character sets, format strings, shell lists) from /repo on every run"},
-    {"name": "lean", "path": "lean/", "serves_properties": ["C02", "C03", "C04", "C05", "C06", "C08", "C09", "C10", "C11", "C12", "C13", "C14", "C15", "C17"],
+    {"name": "lean", "path": "lean/", "serves_properties": ["C02", "C03", "C04", "C05", "C06", "C08", "C09", "C10", "C11", "C12", "C13", "C14", "C15", "C17", "C19"],
      "kind_free_text": "Lean 4 library: Model (transcription of the code), Spec (readers, decoders, oracles), Props (theorems); compiled driver lean/Driver"},
-    {"name": "harness", "path": "harness/", "serves_properties": ["C02", "C03", "C04", "C05", "C06", "C08", "C09", "C10", "C11", "C12", "C13", "C14", "C15", "C17"],
+    {"name": "harness", "path": "harness/", "serves_properties": ["C02", "C03", "C04", "C05", "C06", "C08", "C09", "C10", "C11", "C12", "C13", "C14", "C15", "C17", "C19"],
      "kind_free_text": "Go module linking the real packages from /repo with -tags verif; generators and in-process execution, one JSON line per case"},
-    {"name": "runner", "path": "check", "serves_properties": ["C02", "C03", "C04", "C05", "C06", "C08", "C09", "C10", "C11", "C12", "C13", "C14", "C15", "C17"],
+    {"name": "runner", "path": "check", "serves_properties": ["C02", "C03", "C04", "C05", "C06", "C08", "C09", "C10", "C11", "C12", "C13", "C14", "C15", "C17", "C19"],
      "kind_free_text": "python3 (stdlib): orchestration, known-finding classification by input neutralisation, shrinking, evidence"},
 ]
 
@@ -151,6 +151,17 @@ PROPS.update({
             "level_text": ("`C15_action_cache`: for every previous entry and every point at which the in-place write of a document stops, a reader gets nothing usable, the complete previous entry or the complete new entry - given that a proper prefix of the document does not decode; `write_is_in_place` / `loadE_decodes_whole_file` tie the protocol shape to the source (regenerated call lists of internal/cache.Write and LoadE); `C15_raw_cache_counterexample` decides that the raw byte cache serves a fragment (listed finding), `C15_raw_cache_rename` that a temp-file + rename protocol would not. "
                            "Runtime part, searched exhaustively per case: the real write path is stopped at every byte offset and a reader goes through the real cache."),
             "level_note": CACHE_NOTE},
+})
+
+
+PROPS.update({
+    "C19": {"modules": ["Carapace.Props.C19"], "ops": [("timeout", {"quick": 150, "thorough": 5000})], "race_ops": [("timeoutrace", {"quick": 80, "thorough": 2000})],
+            "rule": "one Timeout-wrapped Action value (d = 20/30/40 ms, optionally nested in Timeout(2d), optionally a Batch member) invoked 1-3 times in a row with wrapped-action durations 0, d/4, 3d, 4d or never-returning, with and without waiting for the abandoned computation to finish before the next invocation; the abandoned computation always goes on to produce its result; the same scenarios on a -race build; non-trivial = every case; distinct = distinct input digest",
+            "assumptions": ["durations within a factor 3 of d are not generated: the real scheduling margin is observed with a tolerance of 250 ms, not proved", "the Go memory model's channel rule (a receive happens after the send) is the premise of `C19_hb`"],
+            "claimed": True, "engine": "conc",
+            "level_text": ("Model-time theorems: `C19_bound` (the caller returns at time <= d however long the wrapped action runs, even if it never returns), `C19_late` (then exactly the alternative), `C19_timely` (a wrapped action that finishes before d yields exactly its result, as a whole), `C19_hb` (write -> send -> receive -> read: the caller never reads the result before the goroutine wrote it), `C19_send_never_blocks` for the channel capacity and go/send/select shape read from the source on every run. "
+                           "Partial by nature: wall-clock margin and data races of the abandoned computation are searched (elapsed time per invocation, repeated invocations of the same wrapped value, race detector), not proved."),
+            "level_note": "Trusted: Lean kernel + propext/Classical.choice/Quot.sound; the Go memory model's channel rule; the extractor (channel capacity, go/send/select shape of Action.Timeout). Modelled: the logic of Timeout in abstract time. Runtime behaviour (scheduler, timers, races) only searched."},
 })
 
 
